@@ -118,7 +118,7 @@ func TransformModuleFilesToModel( //nolint:funlen,gocognit,cyclop
 			}
 
 			types = append(types, typeDef.GetType())
-			if typeDef.GetMetadata() != nil {
+			if typeDef.GetMetadata().GetModule() != "" {
 				typeDef.Metadata.SourceInfo = &openfgav1.SourceInfo{
 					File: module.Name,
 				}
